@@ -139,10 +139,12 @@ NValues(evs) == CRun(ExpandAll(evs)).done
 \* index of the first call that returned an error, 0 if none
 FirstErr(c) == LET S == {j \in 1..Len(c.calls) : ErrOf(c, j) # "nil"} IN
                IF S = {} THEN 0 ELSE CHOOSE j \in S : \A m \in S : j <= m
+\* on the bytes the encoder itself wrote (c.raw; c.out additionally holds the
+\* newline the driver puts between top-level texts)
 JsonBytesOK(c) ==
-  /\ ValidUtf8(c.out)
-  /\ \A j \in 1..Len(c.out) : c.out[j] >= 32
-  /\ c.opts.html => \A j \in 1..Len(c.out) : c.out[j] \notin {60, 62, 38}
+  /\ ValidUtf8(c.raw)
+  /\ \A j \in 1..Len(c.raw) : c.raw[j] >= 32
+  /\ c.opts.html => \A j \in 1..Len(c.raw) : c.raw[j] \notin {60, 62, 38}
 
 EncodeVerdict(c, P) ==
   LET in == c.stream
